@@ -107,6 +107,7 @@ func (x *FnExec) rootState() *State {
 	s := &State{x: x, heap: map[string]*Term{}, cells: map[ssa.Value]Value{}, epoch: x.epochs}
 	s.alloc = x.tc.Sym(fmt.Sprintf("ALLOCROOT.%d", s.epoch), x.refSort())
 	x.addFact(x.intGt(s.alloc, x.refConst(0)))
+	x.allocBound(s.alloc)
 	return s
 }
 
@@ -736,7 +737,15 @@ func (x *FnExec) store(st *State, p *Place, v Value) {
 func (x *FnExec) newRef(st *State) *Term {
 	r := st.alloc
 	st.alloc = x.intAdd(st.alloc, x.refConst(1))
+	x.allocBound(st.alloc)
 	return r
+}
+
+// allocBound: in bv mode the allocation counter must not wrap (bounded address space)
+func (x *FnExec) allocBound(a *Term) {
+	if x.bv && !a.bound {
+		x.addFact(x.tc.And(x.intLt(x.refConst(0), a), x.intLt(a, x.intConstSort(1<<60, x.refSort()))))
+	}
 }
 
 // ptrPlace turns a pointer value of static type ptrT into a place.
